@@ -1618,6 +1618,15 @@ impl World {
                         }
                     }
                     6 => rn.raft.enable_group_commit(v & 1 == 1),
+                    8 => rn.raft.maybe_free_inflight_buffers(),
+                    9 => {
+                        // read-only API: must not panic in any state
+                        let st = rn.status();
+                        let _ = (st.ss, st.hs, st.applied, st.progress.is_some());
+                        let _ = rn.raft.check_group_commit_consistent();
+                        let _ = (rn.raft.in_lease(), rn.raft.pending_read_count(), rn.raft.ready_read_count(), rn.raft.inflight_buffers_size());
+                        let _ = (rn.raft.commit_to_current_term(), rn.raft.apply_to_current_term(), rn.raft.uncommitted_size(), rn.snap().is_some());
+                    }
                     _ => {
                         // commit groups from the bits of v (group ids 1 or 2; some peers left unassigned)
                         let mut ids = vec![];
